@@ -171,6 +171,65 @@ class Evaluator:
             if module is not None:
                 self.mod_stack.pop()
 
+    def instantiate(self, cls, args: List[Any], kwargs: Optional[Dict[str, Any]] = None):
+        """Creates a symbolic instance of a repository class by running its __init__ (or the
+        dataclass field binding) abstractly."""
+        self._n_objs = getattr(self, "_n_objs", 0) + 1
+        obj = Obj(f"{cls.name}#{self._n_objs}", cls=cls)
+        init = self.repo.find_method(cls, "__init__")
+        if init is not None:
+            self.call_funcinfo(init, [obj, *args], kwargs)
+            return obj
+        if any(c.is_dataclass for c in self.repo.mro(cls)):
+            fields: List[str] = []
+            defaults: Dict[str, Any] = {}
+            for c in reversed(self.repo.mro(cls)):
+                for fname, ann in c.class_annotations.items():
+                    if "ClassVar" in ast.unparse(ann):
+                        continue
+                    if fname not in fields:
+                        fields.append(fname)
+                    if fname in c.class_vars:
+                        defaults[fname] = c.class_vars[fname]
+            if len(args) > len(fields):
+                raise NotEvaluable(f"too many arguments for dataclass {cls.name}")
+            vals = dict(zip(fields, args))
+            vals.update(kwargs or {})
+            for fname in fields:
+                if fname not in vals:
+                    if fname not in defaults:
+                        raise NotEvaluable(f"missing field {fname} for dataclass {cls.name}")
+                    vals[fname] = self.eval(defaults[fname])
+                obj.set(fname, vals[fname])
+            post = self.repo.find_method(cls, "__post_init__")
+            if post is not None:
+                self.call_funcinfo(post, [obj])
+            return obj
+        if args or kwargs:
+            raise NotEvaluable(f"{cls.name} takes no constructor arguments")
+        return obj
+
+    def _isinstance(self, value, type_node: ast.expr) -> bool:
+        types = type_node.elts if isinstance(type_node, ast.Tuple) else [type_node]
+        prim = {"list": list, "tuple": tuple, "str": str, "int": int, "dict": dict, "set": set, "float": float, "bool": bool}
+        for t in types:
+            tn = ast.unparse(t)
+            if tn in prim:
+                if isinstance(value, (Sym,)):
+                    raise NotEvaluable(f"isinstance({value}, {tn}) on a symbolic atom")
+                if isinstance(value, prim[tn]) and not (tn == "int" and isinstance(value, bool)):
+                    return True
+                continue
+            ref = self.eval(t)
+            if isinstance(ref, Ref) and isinstance(value, Obj) and value._cls is not None:
+                if ref.target in self.repo.mro(value._cls):
+                    return True
+                continue
+            if isinstance(ref, Ref) and not isinstance(value, (Obj, Sym)):
+                continue  # a plain value is never an instance of a repository class
+            raise NotEvaluable(f"isinstance against {tn} not decidable for {value!r}")
+        return False
+
     def call_method(self, obj: "Obj", name: str, args: List[Any], kwargs: Optional[Dict[str, Any]] = None):
         """Runs method `name` of a symbolic object through the repository's MRO."""
         fi = self.repo.find_method(obj._cls, name) if (self.repo is not None and obj._cls is not None) else None
@@ -482,6 +541,10 @@ class Evaluator:
 
     def _e_Subscript(self, n):
         base = self.eval(n.value)
+        if isinstance(base, Ref):
+            return base  # generic alias: Frame[EdgeLocation]
+        if isinstance(base, Obj) and base._cls is not None and self.repo is not None and self.repo.find_method(base._cls, "__getitem__"):
+            return self.call_method(base, "__getitem__", [self._slice(n.slice)])
         key = self._slice(n.slice)
         try:
             if isinstance(base, deque):
@@ -594,7 +657,7 @@ class Evaluator:
         return out
 
     def _e_JoinedStr(self, n):
-        raise NotEvaluable("f-string in index code")
+        return "<f-string>"  # message text only; its parts are deliberately not evaluated
 
     def _e_Call(self, n: ast.Call):
         name = attr_chain(n.func)
@@ -618,6 +681,30 @@ class Evaluator:
             if isinstance(obj, FuncInfo):
                 kwargs = {kw.arg: self.eval(kw.value) for kw in n.keywords if kw.arg}
                 return self.call_funcinfo(obj, self._elts(n.args), kwargs)
+        if isinstance(n.func, (ast.Name, ast.Attribute, ast.Subscript)) and self.repo is not None and name not in ("isinstance",):
+            target = None
+            if isinstance(n.func, ast.Name) and n.func.id in self.env:
+                target = self.env[n.func.id] if isinstance(self.env[n.func.id], Ref) else None
+            elif isinstance(n.func, ast.Name):
+                try:
+                    target = self._e_Name(n.func)
+                except NotEvaluable:
+                    target = None
+            elif isinstance(n.func, ast.Subscript):
+                try:
+                    target = self.eval(n.func)
+                except NotEvaluable:
+                    target = None
+            if isinstance(target, Ref):
+                from .model import ClassInfo, FuncInfo
+
+                kwargs = {kw.arg: self.eval(kw.value) for kw in n.keywords if kw.arg}
+                if isinstance(target.target, ClassInfo):
+                    return self.instantiate(target.target, self._elts(n.args), kwargs)
+                if isinstance(target.target, FuncInfo) and isinstance(n.func, ast.Name):
+                    return self.call_funcinfo(target.target, self._elts(n.args), kwargs)
+        if name == "isinstance" and len(n.args) == 2:
+            return self._isinstance(self.eval(n.args[0]), n.args[1])
         if isinstance(n.func, ast.Name) and isinstance(self.env.get(n.func.id), Bound):
             b = self.env[n.func.id]
             return self.call_funcinfo(b.func, [b.obj, *self._elts(n.args)])
@@ -667,7 +754,7 @@ class Evaluator:
                 return {"min": min, "max": max, "sum": sum}[f](flat)
             if f == "int" and isinstance(args[0], int):
                 return args[0]
-            if f == "str" and isinstance(args[0], (int, str)):
+            if f == "str":
                 return str(args[0])
             if f == "isinstance":
                 raise NotEvaluable("isinstance in index code")
